@@ -2,7 +2,7 @@
    Nothing here mentions a generated definition; compiled with the scripts in the scratch build directory. *)
 From Coq Require Import List NArith ZArith QArith Bool Lia Lqa.
 Import ListNotations.
-From FP Require Import Lin Blocks BlocksProofs PathEnc PathEncProofs PathEncGiven PyRt PyLin.
+From FP Require Import Lin LinEquiv Blocks BlocksProofs PathEnc PathEncProofs PathEncGiven PyRt PyLin.
 Local Open Scope Q_scope.
 
 (* a loop whose body emits rows: what the rows emitted so far say, iteration by iteration.  J: what stays true of the state. *)
@@ -131,8 +131,8 @@ Lemma vkeyE_Err : forall u v, V fErr (vkeyE (u, v)) = V fErr [u; v].
 Proof. reflexivity. Qed.
 Lemma py_mem_edge_in : forall (e : N * N) l, In e l -> negb (py_mem PyRt.edge_eqb e l) = false.
 Proof. intros e l H. apply negb_false_iff. apply PyRt.py_mem_edge_In. exact H. Qed.
-Lemma pidx_mem_ : forall k i, In i (py_range (Z.of_nat k)) -> negb (py_mem Z.eqb i (map (fun c : Z => c) (py_range (Z.of_nat k)))) = false.
-Proof. intros. apply negb_false_iff. apply (py_mem_In _ Z.eqb Z.eqb_eq). rewrite map_id. assumption. Qed.
+Lemma pidx_mem_ : forall k i, In i (py_range (Z.of_nat k)) -> negb (py_mem Z.eqb i (py_range (Z.of_nat k))) = false.
+Proof. intros. apply negb_false_iff. apply (py_mem_In _ Z.eqb Z.eqb_eq). assumption. Qed.
 Lemma range_nonempty : forall k, (1 <= k)%nat -> py_list_is_empty (py_range (Z.of_nat k)) = false.
 Proof. intros k H. rewrite py_range_of_nat. destruct k; [lia | reflexivity]. Qed.
 
@@ -169,3 +169,11 @@ Proof.
 Qed.
 Lemma map_pair_id : forall (A B : Type) (l : list (A * B)), map (fun '(c0, c1) => (c0, c1)) l = l.
 Proof. intros A B l. rewrite <- (map_id l) at 2. apply map_ext. intros [a b]. reflexivity. Qed.
+
+(* ---------------------------------------------------------------- examples: the same LP, whatever the order / orientation of the rows *)
+(* decided by the verified checker LinEquiv.milp_equiv_b (milp_equiv_sound: same satisfying assignments) *)
+Definition same_lp (cs : list col) (rs : list row) (cs' : list col) (rs' : list row) : bool :=
+  milp_equiv_b {| cols := cs; rows := rs; obj := []; maximize := false |} {| cols := cs'; rows := rs'; obj := []; maximize := false |}.
+Lemma same_lp_sound : forall cs rs cs' rs', same_lp cs rs cs' rs' = true ->
+  forall a, (Forall (sat_col a) cs /\ Forall (sat_row a) rs) <-> (Forall (sat_col a) cs' /\ Forall (sat_row a) rs').
+Proof. intros cs rs cs' rs' H a. exact (proj1 (milp_equiv_sound _ _ H) a). Qed.
